@@ -7,8 +7,11 @@ pub async fn on_did_change_watched_files(
     context: ServerContextSnapshot,
     params: DidChangeWatchedFilesParams,
 ) -> Option<()> {
-    let workspace = context.workspace_manager().read().await;
+    // Lock order: analysis before workspace_manager (see LOCK ORDERING GUIDELINES). Taking
+    // workspace_manager first would close a wait cycle with handlers that hold the analysis
+    // read lock and then read workspace_manager once a writer is queued in between.
     let mut analysis = context.analysis().write().await;
+    let workspace = context.workspace_manager().read().await;
     let emmyrc = analysis.get_emmyrc();
     let encoding = &emmyrc.workspace.encoding;
     let interval = emmyrc.diagnostics.diagnostic_interval.unwrap_or(500);
@@ -47,11 +50,9 @@ pub async fn on_did_change_watched_files(
                     continue;
                 }
                 let config_path = uri_to_file_path(&file_event.uri).unwrap();
-                context
-                    .workspace_manager()
-                    .read()
-                    .await
-                    .add_update_emmyrc_task(context.clone(), config_path);
+                // reuse the guard: re-acquiring a read lock that is already held deadlocks
+                // as soon as a writer is queued between the two acquisitions
+                workspace.add_update_emmyrc_task(context.clone(), config_path);
             }
             None => {}
         }
